@@ -30,17 +30,19 @@ import (
 //     for 0 <= nth < len, s[len+nth] for -len <= nth < 0, otherwise a non-nil error;
 //     an index outside [0,len) anywhere is a panic and a violation.
 //
-// The definition is piecewise affine over the lines nth = 0, nth = len, nth = -len.
-// Every cell of the joint arrangement (lines of the premise's shape and those three)
-// that contains an integer point with len >= 0 is a (possibly unbounded) polygon whose
-// vertices have coordinates of magnitude at most 2 and whose edge directions are among
-// (1,0), (0,1), (1,1), (1,-1); such a cell contains, inside the box, integer points
-// spanning its affine hull (a vertex or near-vertex point plus at least four steps
-// along each of its edge directions).  Two affine functions (the index read and the
-// index the definition names) that agree on those points agree on the whole cell, and
-// accept/reject is constant per cell.  So agreement on the box is agreement for every
-// length and every nth - up to integer overflow of len-|nth| and -nth at the extremes
-// of int, which is not decided.
+// Why the box suffices. The definition is piecewise affine over the lines nth = 0,
+// nth = len, nth = -len; the implementation over the lines it compares along. A first
+// pass over the base box records those lines exactly (the affine form of both operands
+// of every integer comparison and of every index, tracked symbolically along the
+// executed path), and boxNeeded (mini.go) computes from them and from the statement's
+// lines the largest vertex coordinate V of the arrangement and the largest entry G of a
+// primitive direction vector of its lines; the table covers at least V + 2G + 2 in
+// every coordinate. Every face of the arrangement that contains an integer point then
+// contains, inside the box, a point next to one of its vertices plus a step along each
+// of its directions: enough to pin down an affine function on the face, and accept /
+// reject is constant per face. So agreement on the box is agreement for every length
+// and every nth - an argument with computed parameters, not a machine-checked proof,
+// and up to integer overflow of len-|nth| and -nth at the extremes of int.
 
 type affN struct {
 	coef int // upper bound on the sum of |coefficients| of (len, nth)
@@ -331,15 +333,12 @@ func checkNth(c rc) {
 		return
 	}
 	c.r.Floor("BD2", 200)
-	reported := map[string]bool{}
-	for L := int64(0); L <= 8; L++ {
-		for n := int64(-11); n <= 11; n++ {
-			var reads []int64
-			out, ok, why := miniEval(fn, map[*ssa.Parameter]mv{nth: {k: mvInt, n: n}}, miniEnv{p: p, slice: sl, length: L, reads: &reads})
-			if !ok {
-				c.und("BD2", name, "index table", c.fpos(fn), "Nth cannot be followed by the table's evaluator ("+why+")")
-				return
-			}
+	runAffTable(c, affTable{rule: "BD2", name: name, fn: fn, slice: sl, ints: []*ssa.Parameter{nth}, baseL: 8, baseW: 11, capL: 24, capW: 40,
+		// the statement's regions: nth >= 0, nth < len, nth >= -len
+		stmtPlanes: [][4]int64{{0, 1, 0, 0}, {-1, 1, 0, 0}, {1, 1, 0, 0}},
+		call:       func(L int64, a []int64) string { return fmt.Sprintf("Nth(slice of length %d, %d)", L, a[0]) },
+		judge: func(L int64, a []int64, out miniOut, _ []int64) (bool, string, string) {
+			n := a[0]
 			wantIdx := int64(-1)
 			switch {
 			case n >= 0 && n < L:
@@ -370,14 +369,8 @@ func checkNth(c rc) {
 					reason = fmt.Sprintf("must return element %d, returns %s", wantIdx, describeMv(out.results[0]))
 				}
 			}
-			region := nthRegion(L, n)
-			c.r.Obligation("BD2", okV, map[string]any{"rule": "BD2", "function": name, "len": L, "nth": n, "ok": okV})
-			if !okV && !reported[region] {
-				reported[region] = true
-				c.r.Violation(coreDiag("BD2", name, region, c.fpos(fn), fmt.Sprintf("Nth(slice of length %d, %d) %s", L, n, reason)))
-			}
-		}
-	}
+			return okV, reason, nthRegion(L, n)
+		}})
 }
 
 func describeMv(v mv) string {
